@@ -26,6 +26,10 @@ func VP_Conf_Models() {
 		vpAssert(string(vpFormat(">%s\n%v", []any{s, s})) == fmt.Sprintf(">%s\n%v", s, s), "fmt model: %s and %v of string")
 		vpAssert(string(vpFormat("%s|%s", []any{s, []byte(s)})) == fmt.Sprintf("%s|%s", s, []byte(s)), "fmt model: %s of string and []byte")
 	}
+	// data used as a format string (no operands): fmt's missing-operand texts
+	for _, f := range []string{"", "a%", "50%_x", "%20A", "a%%b", "%-5d|", "% x%", "%#08q.", "%!", "100%\t%s\n", "%07", "%+"} {
+		vpAssert(string(vpFormat(f, nil)) == fmt.Sprintf(f), "fmt model: directives without operands")
+	}
 	hay := []string{"", "a", "abcabc", "\t\tx\t", "aXbXc", "::", "a:b:c"}
 	for _, h := range hay {
 		for _, c := range []byte{'a', 'X', '\t', ':', 'z'} {
